@@ -405,6 +405,10 @@ def r18a(P, R):
     for ci in (ci0, inlined(P, ci0, depth=1)):   # the function itself first (exact provenance), then with helper bodies attached
         oks = [(i, c) for i, (c, _) in enumerate(ci.nodes()) if c.get("k") == "Struct" and "rest" not in c
                and norm(c.get("variant", "")).endswith("CheckImplOutput::Ok")]
+        if not oks and (ci0.sig_output or "").startswith("core::result::Result<"):
+            # the verdict as a Result: the success value is an explicit `Ok(..)` of check_impl itself
+            oks = [(i, c) for i, (c, _) in enumerate(ci.nodes()) if c.get("k") == "Call" and (call_name(c) or "") == "core::result::Result::Ok"
+                   and not c.get("x") and "inl" not in c and not any(a_.get("k") == "Call" and "inl" in a_ for a_ in [c])]
         if oks:
             break
     R.floor("R18-a", "CheckImplOutput::Ok constructions", len(oks), 1)
@@ -685,12 +689,27 @@ def gate(P, R, rule="R18-c"):
                     if isinstance(fl, dict) and "e" in fl:
                         src |= {a[1] for a in pvf.atoms(fl["e"]) if a[0] == "field" and a[1]}
                 checked = any(a.endswith(("CheckImplOutput::Ok", "CliContext::SchemaResolved")) for a in src)
+                # the check verdict as a Result: the data comes from what check_impl returned, on the Ok side (an `Ok(..)` arm of a
+                # match on that result, or past a `?`); the Err arm of such a match is the failed-check path
+                impl = P.fn(CLI + "check::check_impl", required=False)
+                if impl is not None and (impl.sig_output or "").startswith("core::result::Result<"):
+                    from_impl = any(a[0] == "call" and a[1] == impl.path for fl in c.get("fields", []) if isinstance(fl, dict) and "e" in fl for a in pvf.atoms(fl["e"]))
+                    for ctx in enclosing_contexts(f, i):
+                        if ctx[0] == "arm" and ctx[1] is not None and any(a[0] == "call" and a[1] == impl.path for a in pvf.atoms(ctx[1]["scrut"])):
+                            pvs = pat_variants(ctx[2]["pat"])
+                            if any(v.endswith("Result::Err") for v in pvs):
+                                other.append("Err(..) of check_impl")
+                            elif any(v.endswith("Result::Ok") for v in pvs) and from_impl:
+                                from_check = True
+                    if from_impl and not other and not any(c_[0] == "arm" and c_[1] is not None and any(
+                            a[0] == "call" and a[1] == impl.path for a in pvf.atoms(c_[1]["scrut"])) for c_ in enclosing_contexts(f, i) if str(c_[1].get("src")) == "Normal"):
+                        from_check = True   # bound past `check_impl(..)?` / let-else: only the Ok payload gets here
                 key = "resolved-ctor:%s" % short(f.path)
                 if other:
                     R.violated(rule, key, "%s constructs CliContext::SchemaResolved on a path that is not the successful-check path (matched: %s): "
                                "generate could run on an unchecked project" % (f.path, sorted(short(v) for v in other)), loc=f.loc())
                 elif from_check or rewrap or checked:
-                    R.holds(rule, key, "SchemaResolved built only from CheckImplOutput::Ok or by re-wrapping a SchemaResolved", loc=f.loc())
+                    R.holds(rule, key, "SchemaResolved built only from a successful check result or by re-wrapping a SchemaResolved", loc=f.loc())
                 elif src and not checked and any(a.endswith("CliContext::SchemaUnresolved") for a in src):
                     R.violated(rule, key, "%s constructs CliContext::SchemaResolved from the unresolved context alone (nothing in it comes from CheckImplOutput::Ok): "
                                "generate could run on an unchecked project" % f.path, loc=f.loc())
